@@ -28,9 +28,8 @@ CONFIG = {
         "V.C17.b64_alphabet_facts",
         "V.C17.roomValid_within",
         "V.C17.limits_eq_spec_partial",
-        "V.C17.limits_masked_gap",
-        "V.C17.limits_domainless_partial",
-        "V.C17.limits_pseudo_partial",
+        "V.C17.limits_untrusted_eq_spec_partial",
+        "V.C17.limits_roomBytes_gap",
         "V.C17.limits_params_eq_spec",
         "V.C17.version_table_eq_spec",
         "V.C17.version_table_total",
